@@ -2,6 +2,7 @@ package c09
 
 import (
 	"bytes"
+	"context"
 	"encoding/hex"
 	"encoding/json"
 	"fmt"
@@ -11,6 +12,7 @@ import (
 	"os/exec"
 	"strings"
 	"testing"
+	"time"
 
 	"pgregory.net/rapid"
 
@@ -67,7 +69,9 @@ func checkFresh(c freshCase) error {
 	}
 	here := renderFile(recipe.BuildFile(c.Job))
 	in, _ := json.Marshal(c.Job)
-	cmd := exec.Command(os.Args[0], "-test.run=^TestFreshChild$")
+	ctx, cancel := context.WithTimeout(context.Background(), 2*time.Minute)
+	defer cancel()
+	cmd := exec.CommandContext(ctx, os.Args[0], "-test.run=^TestFreshChild$")
 	cmd.Env = append(os.Environ(), "VERIF_C09_CHILD=1", "VERIF_OUT=", "GORACE=atexit_sleep_ms=0")
 	cmd.Stdin = bytes.NewReader(in)
 	out, err := cmd.Output()
